@@ -92,7 +92,7 @@ fn run_conc(cfg: &ConcCfg, rng: &mut Rng, sid: u64) -> ConcOutcome {
         std::thread::Builder::new()
             .name("sampler".into())
             .spawn(move || {
-                procmon::register_current();
+                let _reg = procmon::Registration::new();
                 let mut n = 0u64;
                 while !stop.load(Ordering::Relaxed) {
                     let r = panics::guard(|| {
@@ -142,7 +142,7 @@ fn run_conc(cfg: &ConcCfg, rng: &mut Rng, sid: u64) -> ConcOutcome {
             std::thread::Builder::new()
                 .name("churn".into())
                 .spawn(move || {
-                    procmon::register_current();
+                    let _reg = procmon::Registration::new();
                     let mut n = 0u64;
                     while !stop.load(Ordering::Relaxed) {
                         let c = qc.clone();
@@ -178,7 +178,8 @@ fn run_conc(cfg: &ConcCfg, rng: &mut Rng, sid: u64) -> ConcOutcome {
             std::thread::Builder::new()
                 .name(format!("producer-{}", p))
                 .spawn(move || {
-                    let tid = procmon::register_current();
+                    let _reg = procmon::Registration::new();
+                    let tid = _reg.tid;
                     bar.wait();
                     let mut panicked: Option<String> = None;
                     for k in 0..n {
@@ -187,7 +188,7 @@ fn run_conc(cfg: &ConcCfg, rng: &mut Rng, sid: u64) -> ConcOutcome {
                             if x < p_panic {
                                 Out::Panic
                             } else if x < p_panic + p_err {
-                                Out::Err(prng.below(6) as u8)
+                                Out::Err(prng.below(10) as u8)
                             } else {
                                 Out::Ok
                             }
@@ -214,7 +215,6 @@ fn run_conc(cfg: &ConcCfg, rng: &mut Rng, sid: u64) -> ConcOutcome {
                         }
                     }
                     drop(handle);
-                    procmon::unregister(tid);
                     panicked
                 })
                 .unwrap(),
@@ -428,13 +428,13 @@ fn offline(cfg: &ConcCfg, log: &[Ev], accepted: &[String], aborted: bool, viol: 
     let mut inside = false;
     for e in log {
         match e {
-            Ev::Enter { metric, tid } => {
+            Ev::Enter { metric, tid, on_harness_thread } => {
                 if inside {
                     viol.push(V { props: pd.clone(), rule: "R3", class: "overlapping-sink-calls".into(), detail: format!("{} entered the wrapped sink while another call was in progress", metric) });
                     return;
                 }
                 inside = true;
-                if procmon::is_harness_tid(*tid) {
+                if *on_harness_thread {
                     viol.push(V { props: vec!["C10"], rule: "R5", class: "sink-on-caller-thread".into(), detail: format!("wrapped sink invoked for {} on caller thread {}", metric, tid) });
                     return;
                 }
@@ -511,13 +511,13 @@ fn offline(cfg: &ConcCfg, log: &[Ev], accepted: &[String], aborted: bool, viol: 
     while i < sinkside.len() {
         match sinkside[i] {
             Ev::Exit { metric, out: Out::Err(kidx), tid } if cfg.handler => match sinkside.get(i + 1) {
-                Some(Ev::Handler { msg, kind, tid: ht }) => {
+                Some(Ev::Handler { msg, kind, tid: ht, on_harness_thread: h_on_harness }) => {
                     let ok = msg == &format!("scripted-error:{}", metric) && *kind == ERR_KINDS[*kidx as usize % ERR_KINDS.len()];
                     if !ok {
                         viol.push(V { props: vec!["C16"], rule: "R8", class: "handler-wrong-error".into(), detail: format!("handler got {:?}/{} for the failure of {}", kind, msg, metric) });
                         return;
                     }
-                    if ht != tid || procmon::is_harness_tid(*ht) {
+                    if ht != tid || *h_on_harness {
                         viol.push(V { props: vec!["C16"], rule: "R8", class: "handler-wrong-thread".into(), detail: format!("handler ran on thread {}, the wrapped sink failed on thread {}", ht, tid) });
                         return;
                     }
@@ -604,7 +604,7 @@ fn window_scenarios(rep: &mut Report, prop: &str, args: &Args, rounds: u64) {
                 let text = format!("w{}.a|ok", round);
                 let t2 = text.clone();
                 let prod = std::thread::spawn(move || {
-                    procmon::register_current();
+                    let _reg = procmon::Registration::new();
                     let r = panics::guard(|| qp.emit(&t2));
                     drop(qp);
                     r
@@ -775,7 +775,7 @@ fn window_scenarios(rep: &mut Report, prop: &str, args: &Args, rounds: u64) {
                     arm(dp);
                 }
                 let dropper = std::thread::spawn(move || {
-                    procmon::register_current();
+                    let _reg = procmon::Registration::new();
                     panics::guard(move || drop(q))
                 });
                 if let Some(dp) = dropper_point {
@@ -905,7 +905,8 @@ fn blocked_case(rep: &mut Report, prop: &str, args: &Args, cs: u64) {
         let h = q.clone();
         let (barrier, done, oks, surfaced, tids) = (barrier.clone(), done.clone(), oks.clone(), surfaced.clone(), tids.clone());
         joins.push(std::thread::spawn(move || {
-            let tid = procmon::register_current();
+            let _reg = procmon::Registration::new();
+            let tid = _reg.tid;
             tids.lock().unwrap().push(tid);
             let pad = if big { "y".repeat(200_000) } else { String::new() };
             barrier.wait();
@@ -966,9 +967,6 @@ fn blocked_case(rep: &mut Report, prop: &str, args: &Args, cs: u64) {
     sh.open_all();
     for j in joins {
         let _ = j.join();
-    }
-    for t in tids.lock().unwrap().iter() {
-        procmon::unregister(*t);
     }
     rep.obs("blocked_sink_races", 1);
     rep.obs("emits_while_sink_blocked", (producers * per) as u64);
@@ -1042,7 +1040,7 @@ fn droprace_case(rep: &mut Report, prop: &str, args: &Args, cs: u64) {
     for h in handles {
         let go = go.clone();
         joins.push(std::thread::spawn(move || {
-            procmon::register_current();
+            let _reg = procmon::Registration::new();
             go.fetch_add(1, Ordering::SeqCst);
             while go.load(Ordering::SeqCst) < n as u64 {
                 std::hint::spin_loop();
